@@ -88,7 +88,7 @@ fn check_network(len: usize, merger: Option<bool>, cache: bool) -> Result<u64, S
 // ---------------------------------------------------------------------------------------------
 // inputs
 
-fn key_val(kt: &Ty, k: u64) -> Val {
+pub fn key_val(kt: &Ty, k: u64) -> Val {
     match kt {
         Ty::Int(_) => Val::Int(k as i128),
         Ty::Tuple(ts) if ts.len() == 2 => Val::Tuple(vec![Val::Int((k / 3) as i128), Val::Int((k % 3) as i128)]),
@@ -96,7 +96,7 @@ fn key_val(kt: &Ty, k: u64) -> Val {
     }
 }
 
-fn elem_with_key(rng: &mut Rng, et: &Ty, k: u64, d: &Defs) -> Val {
+pub fn elem_with_key(rng: &mut Rng, et: &Ty, k: u64, d: &Defs) -> Val {
     match et {
         Ty::Tuple(ts) => {
             let mut fs = vec![key_val(&ts[0], k)];
@@ -109,7 +109,7 @@ fn elem_with_key(rng: &mut Rng, et: &Ty, k: u64, d: &Defs) -> Val {
     }
 }
 
-fn sorted_keys(rng: &mut Rng, n: usize, universe: u64, strict: bool) -> Vec<u64> {
+pub fn sorted_keys(rng: &mut Rng, n: usize, universe: u64, strict: bool) -> Vec<u64> {
     let mut ks: Vec<u64> = vec![];
     if strict {
         let mut set = std::collections::BTreeSet::new();
@@ -154,7 +154,7 @@ fn subsets(u: usize, k: usize) -> Vec<Vec<u64>> {
     out
 }
 
-fn key_universe_max(kt: &Ty) -> u64 {
+pub fn key_universe_max(kt: &Ty) -> u64 {
     match kt {
         Ty::Int(t) => (t.max_val().min(u64::MAX as i128)) as u64,
         _ => 255 * 3,
